@@ -187,8 +187,7 @@ class Loader(yaml.SafeLoader):
             recognized_types, result = self.__recognizer.recognize(
                 node, expected_type)
         except SeasoningError as e:
-            raise RecognitionError(
-                    '{}\n{}'.format(node.start_mark, e.args[0]))
+            raise RecognitionError('{}\n{}'.format(node.start_mark, e))
 
         if len(recognized_types) != 1:
             raise RecognitionError(format_rec_error(result))
@@ -206,7 +205,7 @@ class Loader(yaml.SafeLoader):
                 node = self.__savorize(node, recognized_type)
             except SeasoningError as e:
                 raise RecognitionError(
-                        '{}\n{}'.format(node.start_mark, e.args[0]))
+                        '{}\n{}'.format(node.start_mark, e))
         logger.debug('Savorized, now {}'.format(node))
 
         # process subnodes
@@ -243,7 +242,7 @@ class Loader(yaml.SafeLoader):
                             subnode = cnode.get_attribute(attr_name)
                         except SeasoningError as e:
                             raise RecognitionError('{}\n{}'.format(
-                                node.start_mark, e.args[0]))
+                                node.start_mark, e))
                         new_subnode = self.__process_node(
                             subnode.yaml_node, type_)
                         cnode.set_attribute(attr_name, new_subnode)
